@@ -134,6 +134,37 @@ theorem sim_eq_chain_quiet {σ α} (P : Producer σ α) (n fuel : Nat) (sub disp
     (Sim.record P fuel sub disp).out = chain P n sub :=
   record_eq_chain P n fuel sub disp h0 hlt hq hf
 
+/-- **sim_eq_chainSpin.** In general — with a dispose cutting the run and beyond the scheduler's 100-item spin
+limit — the recording of the scheduler model equals `chainSpin`: the same chain of actions, where an
+action due at or after the dispose time never runs, and the clock moves to the due time or, after
+more than 100 consecutive same-instant items, by one. -/
+theorem sim_eq_chainSpin {σ α} (P : Producer σ α) (fuel : Nat) (sub disp : Int) (h0 : 0 ≤ sub) (hlt : sub < disp) :
+    (Sim.record P (fuel + 1) sub disp).out =
+      match P.first with
+      | none => []
+      | some (s, d) => chainSpin P disp fuel sub 1 (sub + d.getD 0) s :=
+  record_eq_chainSpin P fuel sub disp h0 hlt
+
+/-- **sim_values_prefix_of_chain.** Dispose and spin change only WHEN and HOW MUCH is delivered, never
+WHAT: for every well-formed producer (all factories of this property: `wfp_*`) the notifications
+recorded on the scheduler are a prefix of the notifications of the producer's chain, i.e. of the
+sequences characterised by the theorems above. -/
+theorem sim_values_prefix_of_chain {σ α} (P : Producer σ α) (hP : WFP P) (fuel : Nat) (sub disp : Int)
+    (h0 : 0 ≤ sub) (hlt : sub < disp) :
+    ((Sim.record P (fuel + 1) sub disp).out.map (·.2)) <+: ((chain P fuel sub).map (·.2)) := by
+  rw [sim_eq_chainSpin P fuel sub disp h0 hlt]
+  simp only [chain]
+  cases P.first with
+  | none => simp
+  | some sd => obtain ⟨s, d⟩ := sd; exact chainSpin_prefix P hP disp fuel _ _ _ _ _
+
+/-- the factories of this property are well-formed producers -/
+theorem factories_wellformed {α} (lo hi st d : Int) (init : α) (f : GenFns α) (tm : α → Except Err Int) (v : α)
+    (count : Option Int) :
+    WFP (rangeP lo hi st) ∧ WFP (generateP init f) ∧ WFP (gwrtP init f tm) ∧ WFP (timerP d) ∧
+    WFP (repeatValueP v count) :=
+  ⟨wfp_range lo hi st, wfp_generate init f, wfp_gwrt init f tm, wfp_timer d, wfp_repeat v count⟩
+
 /-! ## AS-IS section: the defect of the pinned tree (DEFECT, not part of the claimed behaviour)
 
 `generate_with_relative_time` tests `assert time`; a zero delay (0, 0.0, timedelta(0)) is falsy, so
@@ -161,6 +192,8 @@ example : delayLoop asisFns (fun s => .ok (if s = 0 then 0 else 3)) 10 100 0
 /-- `quiet` holds on a concrete run: range(5, 0, -2) subscribed at 200, disposed at 1000 -/
 example : (Sim.record (rangeP 5 0 (-2)) 12 200 1000).out = chain (rangeP 5 0 (-2)) 10 200 :=
   sim_eq_chain_quiet _ 10 12 200 1000 (by decide) (by decide) (by show quiet _ _ _ _ _ _ = true; decide) (by decide)
+/-- a dispose cut: range(0, 5) subscribed at 200 but disposed at 200 … nothing; disposed at 201 … everything -/
+example : (Sim.record (rangeP 0 5 1) 20 200 201).out.length = 6 := by decide
 example : chain (repeatValueP 'x' (some 2)) 5 0 = [(0, .next 'x'), (0, .next 'x'), (0, .completed)] := by decide
 
 end C37
